@@ -518,6 +518,8 @@ def _big_job(job):
             elif form == 'choice':
                 rec['size'] = n // 2
                 ds = src.random_choice(n // 2, replace=False, rng_state=rng)
+            elif form == 'interleaved-prefetch':
+                pass
             elif form in ('catch-reshuffle', 'prefetch-catch-reshuffle'):
                 # a failing map below catch(), a per-epoch reshuffle below that:
                 # every epoch drops exactly the failing examples, wherever they
@@ -534,6 +536,22 @@ def _big_job(job):
                     ds.prefetch(2, 4, catch_filter_exception=True)
             else:
                 raise ValueError(form)
+            if form == 'interleaved-prefetch':
+                # two iterators in flight over ONE reshuffle().prefetch(2, 2, backend)
+                # object (b = 0: threads, b = 1: 'dill_mp' - the frozen copy of each
+                # iteration is pickled for every task)
+                ds = src.shuffle(True, rng=rng).prefetch(2, 2, backend='dill_mp' if b else 't')
+                it1 = iter(ds)
+                a1 = [next(it1), next(it1)]
+                it2 = iter(ds)
+                a2 = []
+                for x, y in zip(it1, it2):
+                    a1.append(x)
+                    a2.append(y)
+                a2 += list(it2)
+                a1 += list(it1)
+                rec['epochs'] = [[int(v) for v in a1], [int(v) for v in a2]]
+                return rec
             for _ in range(3 if rec['drop'] else 2):
                 acc = []
                 for x in ds:
@@ -551,13 +569,20 @@ def big_sizes(tier, res):
         for form in ('catch-reshuffle', 'prefetch-catch-reshuffle'):
             for s_ in range(3 if tier == 'quick' else 12):
                 jobs.append((form, n, 0, common.seed() + 100 * n + s_))
+    for s_ in range(2 if tier == 'quick' else 8):
+        for b in (0, 1):
+            jobs.append(('interleaved-prefetch', 24, b, common.seed() + 7000 + s_))
     for n in BIG[tier]:
         for form in ('reshuffle', 'batch-reshuffle', 'reshuffle-batch', 'batch-once', 'once',
                      'frozen', 'local', 'tile', 'choice'):
             for b in ((4, 5) if 'batch' in form or form == 'frozen' else (0,)):
                 jobs.append((form, n, b, common.seed() + n + b))
+    # (jobs that start process pools cannot run inside a daemonic pool worker)
+    own = [j for j in jobs if j[0] == 'interleaved-prefetch' and j[2] == 1]
+    jobs = [j for j in jobs if j not in own]
     with mp.get_context('fork').Pool(min(common.NCPU, 8)) as pool:
         recs = pool.map_async(_big_job, jobs, chunksize=1).get(1800)
+    recs += [_big_job(j) for j in own]
     for i, r in enumerate(recs):
         r['id'] = i + 1
     try:
